@@ -221,7 +221,8 @@ Definition find_lease (mac : N) (ls : list lease) : option (nat * lease) :=
   find_index (fun l => l_mac l =? mac) ls.
 
 Definition pool_offsets (c : conf) : list N :=
-  map N.of_nat (seq 0 (N.to_nat (c_end c - c_start c + 1))).
+  if c_end c <? c_start c then []
+  else map N.of_nat (seq 0 (N.to_nat (c_end c - c_start c + 1))).
 
 (** nextIP: the first pool address whose offset bit is clear. *)
 Definition next_ip (c : conf) (s : state) : option N :=
